@@ -214,6 +214,22 @@ def run_one(pid, mut, demos, idx):
         p = subprocess.run(['/venv/bin/python', '-m', 'sa.check', pid, '--tier', 'quick'], cwd=VERIF, env=env, capture_output=True, text=True, timeout=600)
         finds = [l[:200] for l in p.stdout.splitlines() if l.startswith(('FINDING', 'ANALYSIS-ERROR'))]
         res = {'check_exit': p.returncode, 'findings': finds[:3], 'demos': {}}
+        if '--all-checks' in sys.argv and p.returncode == 0:
+            # does ANY property's check report this mutant?  (a probe covers more than one property's ground)
+            others = []
+            for k in range(1, 21):
+                q_ = 'C%02d' % k
+                if q_ == pid:
+                    continue
+                pp = subprocess.run(['/venv/bin/python', '-m', 'sa.check', q_, '--tier', 'quick'], cwd=VERIF, env=env, capture_output=True, text=True, timeout=600)
+                if pp.returncode != 0:
+                    others.append('%s:%d' % (q_, pp.returncode))
+                    if pp.returncode == 1:
+                        break
+            res['other_checks'] = others
+            if any(o.endswith(':1') for o in others):
+                res['check_exit'] = 1
+                res['findings'] = ['reported by ' + ', '.join(others)]
         denv = dict(os.environ, PYTHONPATH=d, MPLBACKEND='Agg', NUMBA_CACHE_DIR=os.path.join(d, '.nc'), NUMBA_NUM_THREADS='2', OMP_NUM_THREADS='2',
                     OPENBLAS_NUM_THREADS='2')
         for demo in demos:
